@@ -268,6 +268,43 @@ func init() {
 		}
 		return []Val{Ite(Lt(x, y), IntT(-1), Ite(Gt(x, y), IntT(1), IntT(0)))}
 	})
+	// ---- pcommon.Value (immutable value: its accessors are functions of the value)
+	pv := "(go.opentelemetry.io/collector/pdata/pcommon.Value)."
+	reg(pv+"AsString", "pure function of the value", func(ex *Exec, a []Val, st *State, _ *types.Signature) []Val {
+		return []Val{UF("pvalue.asString", SStr, flatAll(a[:1])...)}
+	})
+	reg(pv+"Str", "pure function of the value", func(ex *Exec, a []Val, st *State, _ *types.Signature) []Val {
+		return []Val{UF("pvalue.str", SStr, flatAll(a[:1])...)}
+	})
+	reg(pv+"Int", "pure function of the value", func(ex *Exec, a []Val, st *State, _ *types.Signature) []Val {
+		return []Val{UF("pvalue.int", SInt, flatAll(a[:1])...)}
+	})
+	reg(pv+"Double", "pure function of the value", func(ex *Exec, a []Val, st *State, _ *types.Signature) []Val {
+		return []Val{UF("pvalue.double", SF64, flatAll(a[:1])...)}
+	})
+	reg(pv+"Type", "pure function of the value", func(ex *Exec, a []Val, st *State, _ *types.Signature) []Val {
+		return []Val{UF("pvalue.type", SInt, flatAll(a[:1])...)}
+	})
+	reg("go.opentelemetry.io/collector/pdata/pcommon.NewValueStr", "returns a value v with v.AsString() == s and v.Str() == s", func(ex *Exec, a []Val, st *State, sig *types.Signature) []Val {
+		s := tm(a[0])
+		v := ufVal("pvalue.newStr", sig.Results().At(0).Type(), s)
+		fl := flatten(v, nil)
+		if !s.hasBound {
+			ex.fact(nil, Eq(UF("pvalue.asString", SStr, fl...), s))
+			ex.fact(nil, Eq(UF("pvalue.str", SStr, fl...), s))
+		}
+		return []Val{v}
+	})
+	reg("go4.org/netipx.ParseIPRange", "(value, err) are uninterpreted functions of the text", func(ex *Exec, a []Val, st *State, sig *types.Signature) []Val {
+		s := tm(a[0])
+		ok := UF("netipx.parseRange.ok", SBool, s)
+		return []Val{ufVal("netipx.parseRange.v", sig.Results().At(0).Type(), s), iteVal(ok, nilIface(), ex.nonNilErr("iprange", s))}
+	})
+	reg("net/netip.ParsePrefix", "(value, err) are uninterpreted functions of the text", func(ex *Exec, a []Val, st *State, sig *types.Signature) []Val {
+		s := tm(a[0])
+		ok := UF("netip.parsePrefix.ok", SBool, s)
+		return []Val{ufVal("netip.parsePrefix.v", sig.Results().At(0).Type(), s), iteVal(ok, nilIface(), ex.nonNilErr("ipprefix", s))}
+	})
 	// ---- prometheus / humanize / time parsing: uninterpreted (value, err) pairs
 	parse2 := func(name string, vs string) modelFn {
 		return func(ex *Exec, a []Val, st *State, sig *types.Signature) []Val {
